@@ -86,6 +86,8 @@ def case_st(draw, density=False):
         "seed": draw(st.integers(0, 2 ** 32)), "steps": 20000 if density else 30,
         # documented way to change masses during a run: atoms.set_masses(...) followed by update_masses()
         "remass_at": None if density else draw(st.one_of(st.none(), st.integers(1, 20))),
+        # the adaptive driver recomputes a per-coordinate delta before every step (bound part only)
+        "adaptive": (not density) and draw(st.integers(0, 3)) == 0,
         "new_masses": [draw(fl(1, 200)) for _ in range(n)],
     }
     return case
@@ -103,7 +105,14 @@ def build(case):
     forces = gam * 2.0 * kT / delta
     atoms.calc = FastCalc("constforce", {"forces": forces.tolist()})
 
-    class Counting(ForceBias):
+    adaptive = bool(case.get("adaptive"))
+    if adaptive:
+        from quansino.mc.fbmc import AdaptiveForceBias
+
+        atoms.calc.results_extra = None
+    Base = AdaptiveForceBias if adaptive else ForceBias
+
+    class Counting(Base):
         rounds = 0
 
         def get_zeta(self):
@@ -115,7 +124,11 @@ def build(case):
     with warnings.catch_warnings():
         warnings.simplefilter("ignore")
         # the driver gets its own copy of a per-coordinate delta: the oracle keeps the values the user passed
-        mc = Counting(atoms, delta=(delta.copy() if isinstance(delta, np.ndarray) else delta), temperature=case["T"], seed=case["seed"])
+        if adaptive:
+            dmax = float(np.max(delta))
+            mc = Counting(atoms, min_delta=0.25 * dmax, max_delta=dmax, temperature=case["T"], seed=case["seed"])
+        else:
+            mc = Counting(atoms, delta=(delta.copy() if isinstance(delta, np.ndarray) else delta), temperature=case["T"], seed=case["seed"])
         pk = case["power_kind"]
         if pk == "scalar":
             mc.masses_scaling_power = float(case["power"])
@@ -138,7 +151,7 @@ def build(case):
 
 def run_case(case):
     density = case["steps"] > 1000
-    labels = ["density" if density else "bound", "delta:" + ("array" if case["deltas"] is not None else "scalar"), "power:" + case["power_kind"]]
+    labels = ["density" if density else "bound", "delta:" + ("adaptive" if case.get("adaptive") else "array" if case["deltas"] is not None else "scalar"), "power:" + case["power_kind"]]
     try:
         mc, atoms, delta, scaling, gam, forces, pexp = build(case)
     except Exception as exc:
@@ -166,6 +179,13 @@ def run_case(case):
                 mc.step()
                 dx = atoms.positions - before
                 z = np.asarray(mc.zeta, dtype=float)
+                if case.get("adaptive"):
+                    # the step length actually used is the driver's documented `delta` attribute after update_delta()
+                    delta = np.asarray(mc.delta, dtype=float)
+                    if np.any(delta < 0.25 * float(np.max(np.abs(np.asarray(case["deltas"] if case["deltas"] is not None else case["delta"])))) * (1 - 1e-12)) or np.any(delta > float(np.max(np.abs(np.asarray(case["deltas"] if case["deltas"] is not None else case["delta"])))) * (1 + 1e-12)):
+                        out["violation"] = {"kind": "adaptive-delta-out-of-range", "detail": f"{desc}: adaptive delta {delta.tolist()} outside [min_delta, max_delta]"}
+                        return out
+                    bound = np.abs(delta * scaling)
                 if not np.all(np.isfinite(dx)):
                     out["violation"] = {"kind": "non-finite-displacement", "detail": f"{desc}: displacement contains NaN/inf"}
                     return out
